@@ -52,10 +52,16 @@ func vReq(ip string, hdrVal string, hasHdr bool) *httpprot.Request {
 	if hasHdr {
 		std.Header["X-Key"] = []string{hdrVal}
 	}
+	// the peer address of the connection: the same peer, a new ephemeral port for
+	// every request - not part of the key
+	std.RemoteAddr = []string{"10.9.9.9:40000", "10.9.9.9:40001", "10.9.9.9:40002"}[vReqSeq%3]
+	vReqSeq++
 	req := &httpprot.Request{Request: std}
 	verifSetField(req, "realIP", ip)
 	return req
 }
+
+var vReqSeq int
 
 // verifC04_RoundRobin: after k selections from any counter start, every server
 // was chosen floor(k/n) or ceil(k/n) times.
@@ -125,12 +131,6 @@ func verifC04_Weighted() {
 	spec := &ServerPoolSpec{Servers: servers, LoadBalance: &LoadBalanceSpec{Policy: LoadBalancePolicyWeightedRandom}}
 	// static lists pass Validate (all servers weighted or none); lists reported by service
 	// discovery are not validated: any mix of zero and positive weights, in any order
-	if verifBool("serversFromDiscovery") {
-		verifCover("discovered-servers")
-	} else {
-		verifAssume(spec.Validate() == nil)
-	}
-	lb := NewLoadBalancer(spec.LoadBalance, servers)
 	total := 0
 	for _, s := range servers {
 		total += s.Weight
@@ -138,6 +138,37 @@ func verifC04_Weighted() {
 	if total == 0 {
 		verifCover("all-weights-zero")
 	}
+	if verifBool("serversFromDiscovery") {
+		// the weights are the ones the registry reports, and the list is built by the real
+		// ServerPool.useService from that report
+		sp := &ServerPool{spec: &ServerPoolSpec{Servers: vMakeServers(1, false), ServerTags: []string{"blue"}, LoadBalance: spec.LoadBalance}}
+		verifInitMaps(sp)
+		ids := []string{"i0", "i1", "i2", "i3", "i4"}
+		instances := map[string]*serviceregistry.ServiceInstanceSpec{}
+		var urls [5]string
+		for i, s := range servers {
+			inst := &serviceregistry.ServiceInstanceSpec{InstanceID: ids[i], Address: "10.1.0.1", Port: uint16(8000 + i), Tags: []string{"blue"}, Weight: s.Weight}
+			instances[ids[i]] = inst
+			urls[i] = inst.URL()
+		}
+		sp.useService(instances)
+		s := sp.LoadBalancer().ChooseServer(nil) // a panic here is reported as a violation
+		reported := -1
+		for i := range servers {
+			if s != nil && s.URL == urls[i] {
+				reported = servers[i].Weight
+			}
+		}
+		verifAssert(reported >= 0, "chosen-server-in-list")
+		if total > 0 {
+			verifAssert(reported > 0, "zero-weight-server-never-chosen")
+			verifCover("positive-weights")
+		}
+		verifCover("discovered-servers")
+		return
+	}
+	verifAssume(spec.Validate() == nil)
+	lb := NewLoadBalancer(spec.LoadBalance, servers)
 	s := lb.ChooseServer(nil) // a panic here is reported as a violation
 	verifAssert(vIndexOf(servers, s) >= 0, "chosen-server-in-list")
 	if total > 0 {
